@@ -139,14 +139,21 @@ def run(ctx):
     T.SYMKIND['data'] = 'array'
     T.INTEGER.update({'f_sample_num', 't_sample_num', 't_shift'})
     T.NOTNONE.update({'f_sample_num', 't_sample_num', 'f_shift', 't_shift'})
-    (r, I), (rr, IR) = agree_ref(ctx, sa, REF_SPLIT_ARRAY, 'split_array: tiles [y:y+t, x:x+f] advancing by the shifts, row-major',
-                                 what=('loopstores', 'calls', 'raises'))
+    # (the 2-D walk can be written with or without the in-bound flags and with the first tile of a row inside or before the
+    #  loop: when the statements are grouped differently from the reference walk the one-to-one comparison is not decisive)
+    from . import common as _common
+    _common.RESTRUCTURED_UNDECIDED[0] = True
+    try:
+        (r, I), (rr, IR) = agree_ref(ctx, sa, REF_SPLIT_ARRAY, 'split_array: tiles [y:y+t, x:x+f] advancing by the shifts, row-major',
+                                     what=('loopstores', 'calls', 'raises'))
+    finally:
+        _common.RESTRUCTURED_UNDECIDED[0] = False
 
     def appends(II):
         return [e for e in II.events if e.kind == 'call' and e.data['name'] == '.append']
     a, b = appends(I), appends(IR)
     if len(a) != len(b):
-        ctx.ob('AGREE', 'split_array appends the same tiles as the reference', sa, False,
+        ctx.ob('AGREE', 'split_array appends the same tiles as the reference', sa, None if a else False,
                {'code': [e.text() for e in a], 'reference': [e.text() for e in b]}, node=sa.node, construct='split_data.append')
     else:
         for ea, eb in zip(a, b):
